@@ -15,6 +15,7 @@ package sx
 import (
 	"fmt"
 	"go/types"
+	"math"
 	"strings"
 	"unsafe"
 
@@ -572,6 +573,8 @@ func (w *Worker) eqv(t types.Type, x, y value) value {
 			return w.eqv(types.Typ[types.Int], x.n, 0)
 		}
 		panic(unsupported{"comparison of opaque string content"})
+	case floatSym:
+		return w.floatEq(x, y)
 	case *value:
 		return x == y.(*value)
 	case *channel:
@@ -613,6 +616,9 @@ func (w *Worker) eqv(t types.Type, x, y value) value {
 		return w.eqv(x.t, x.v, yy.v)
 	case rtype:
 		return types.Identical(x.t, y.(rtype).t)
+	}
+	if fy, ok := y.(floatSym); ok {
+		return w.floatEq(fy, x)
 	}
 	if s, ok := y.(*opqStr); ok {
 		if xs, ok := x.(string); ok && xs == "" {
@@ -771,4 +777,36 @@ var _ = unsafe.Pointer(nil)
 // rtype is a placeholder for reflect types (reflection is not modelled).
 type rtype struct {
 	t types.Type
+}
+
+// floatEq is IEEE-754 equality of a float whose bit pattern is symbolic with another float:
+// x == y iff neither is NaN and (the bit patterns are equal or both are zeros of either sign).
+func (w *Worker) floatEq(x floatSym, y value) value {
+	wd := x.bits.W
+	var yb *Term
+	switch y := y.(type) {
+	case floatSym:
+		yb = y.bits
+	case float64:
+		yb = w.tt.Const(64, math.Float64bits(y))
+	case float32:
+		yb = w.tt.Const(32, uint64(math.Float32bits(y)))
+	default:
+		panic(unsupported{fmt.Sprintf("comparing symbolic float with %T", y)})
+	}
+	if yb.W != wd {
+		panic(unsupported{"comparing symbolic floats of different widths"})
+	}
+	absMask, inf := uint64(0x7fffffffffffffff), uint64(0x7ff0000000000000)
+	if wd == 32 {
+		absMask, inf = 0x7fffffff, 0x7f800000
+	}
+	abs := func(t *Term) *Term { return w.tt.Bin(OpBAnd, t, w.tt.Const(wd, absMask)) }
+	notNaN := func(t *Term) *Term { return w.tt.Cmp(OpULe, abs(t), w.tt.Const(wd, inf)) }
+	zero := func(t *Term) *Term { return w.tt.Eq(abs(t), w.tt.Const(wd, 0)) }
+	r := w.tt.And(w.tt.And(notNaN(x.bits), notNaN(yb)), w.tt.Or(w.tt.Eq(x.bits, yb), w.tt.And(zero(x.bits), zero(yb))))
+	if r.IsConst() {
+		return r.IsTrue()
+	}
+	return r
 }
